@@ -26,7 +26,7 @@ ASSUMPTIONS = [
     "comments and whitespace are not part of the token sequence",
     "the language is what the grammar at the pinned commit accepts: in particular a string literal may hold a backslash in front of any character, line feed included (frozen in vf/ref/profile.py's tokenizer)",
 ]
-REQUIRED_MONITORS = ["tokens.equal", "tree.reparse", "accepted", "parse.independent", "from_path.same"]
+REQUIRED_MONITORS = ["tokens.equal", "tree.reparse", "accepted", "parse.independent", "from_path.same", "views.history"]
 EXHAUSTIVE_WHEN = ["every_production_chain"]
 
 
@@ -122,6 +122,38 @@ def check_case(case, ctx):
             extra = [t for t in fresh_tokens if t not in src_tokens][:6]
             ctx.violation("parse.independent", f"a second parse of the same text, after the first profile was edited, regenerates {len(fresh_tokens)} tokens instead of {len(src_tokens)} (not in source: {extra})", case)
             return
+    if case.get("view_history"):
+        # both views of one profile object, read and re-read around edits, in any order: the text after the history is the
+        # text of a fresh parse of the same source with the same edits applied and no views read in between
+        import random as _random
+
+        ctx.mon("views.history")
+        hr = _random.Random(case["view_history"])
+        edits = 0
+        try:
+            ref = c2profile.C2Profile.from_text(text)
+            for _ in range(hr.randrange(3, 9)):
+                op = hr.choice(["text", "dict", "properties", "edit", "edit"])
+                if op == "text":
+                    prof.as_text()
+                elif op == "dict":
+                    prof.as_dict()
+                elif op == "properties":
+                    prof.properties  # noqa: B018
+                else:
+                    edits += 1
+                    name, val = hr.choice([("sleeptime", str(31337 + edits)), ("jitter", str(edits)), ("useragent", f"agent {edits}")])
+                    prof.set_option(name, val)
+                    ref.set_option(name, val)
+            got_tokens = PR.tokenize(prof.as_text())
+            want_tokens = PR.tokenize(ref.as_text())
+        except Exception as e:  # noqa: BLE001
+            ctx.violation("views.history", f"history of as_text / as_dict / set_option calls raised {type(e).__name__}: {str(e)[:200]}", case)
+            return
+        if got_tokens != want_tokens:
+            ctx.violation("views.history", f"after a history of view reads and {edits} edits as_text() gives {len(got_tokens)} tokens; the same edits on a fresh parse "
+                          f"without view reads give {len(want_tokens)} (stale text?)", case)
+            return
     nt = "{" in src_tokens or any(c in text for c in ("\\x", "\\\"", "\\\\"))
     ctx.ok(fp=text, nontrivial=nt, case={"text": text, "kind": case.get("kind")},
            classes=tuple(f"prod:{r}:{a}" for r, a in case.get("productions", [])) + (f"kind:{case.get('kind')}",))
@@ -198,12 +230,23 @@ def run_shard(shard, ctx):
                     if t.startswith('"') and len(t) >= 2 and rng.random() < 0.15:
                         toks[k] = '"' + rng.choice(["\\\n", "\\ ", "\\/", "\\q", "\\;", "\\\r\n", "function f() {\n\n return 1; }", "{\n \n", "a {\n\t\nb", "}\n\n{"]) + t[1:]
                 s.tokens = toks
-            text = PR.render(s.tokens, rng)
             via_path = rng.random() < 0.25
+            if not via_path and rng.random() < 0.25:
+                # raw characters outside ASCII inside literals (scraped page content): zero-width and byte-order-mark
+                # characters included - the token comes back unchanged
+                toks = list(s.tokens)
+                for k, t in enumerate(toks):
+                    if t.startswith('"') and len(t) >= 2 and rng.random() < 0.3:
+                        ins = rng.choice(["\u00e9", "\ufeff", "\u200b", "\u20ac 5", "\u00a0", "\u65e5\u672c", "\ufeff\ufeff", "\u00ff\u0100"])
+                        toks[k] = t[:1] + ins + t[1:] if rng.random() < 0.5 else t[:-1] + ins + t[-1:]
+                s.tokens = toks
+            text = PR.render(s.tokens, rng)
             if via_path and rng.random() < 0.6:
                 # Windows line endings in the file and raw CR / CRLF inside multi-line literals
                 text = text.replace("\n", "\r\n")
-            check_case({"text": text, "kind": "random", "productions": sorted(s.productions), "reparse_after_edit": rng.random() < 0.3, "via_path": via_path}, ctx)
+            rae = rng.random() < 0.3
+            check_case({"text": text, "kind": "random", "productions": sorted(s.productions), "reparse_after_edit": rae, "via_path": via_path,
+                        "view_history": rng.getrandbits(30) + 1 if not rae and rng.random() < 0.5 else 0}, ctx)
     elif kind == "everything":
         # one profile with every production chain concatenated
         toks = []
